@@ -127,6 +127,11 @@ int   vf_ienv_get(int ispec);
 #define VF_EV_STACK_OVERLAP 4   /* head of the caller-workspace stack passed its tail after a growth */
 #define VF_EV_WS_GROWTH  5      /* growths inside the caller workspace (coverage) */
 void  vf_events_reset(void);
+/* initial capacities (entries) of lusup, ucol/usub, lsub for the next factorizations of this thread; 0 keeps the library's own guess.
+   Reset to 0 at the start of every case. vf_cap_default(0|1|2): the library's guess seen at the last ?LUMemInit call */
+void  vf_cap_set(long lusup, long ucol, long lsub);
+long  vf_cap_default(int which);
+long  vf_cap_calls(void);
 long  vf_events_count(int kind);
 int   vf_zero_pivot_without_candidate(void);   /* a zero pivot was reported for a column that had no candidate row at all (F6) */
 int   vf_events_first(int kind);            /* first argument of first event of that kind, -1 if none */
@@ -220,6 +225,7 @@ typedef struct {
 void gen_spec_random(vf_rng *r, const vf_api *P, gen_spec *g, int nmin, int nmax, int square);
 void gen_matrix(vf_rng *r, const vf_api *P, const gen_spec *g, vf_mat *A);
 void gen_spec_str(const gen_spec *g, char *buf, size_t n);
+void gen_ilu_emptycol(vf_rng *r, const vf_api *P, int n, vf_mat *A);   /* ILU gadget: columns whose L part comes out empty (natural order, NOROWPERM) */
 /* random legal tuning; small values so that small matrices reach blocked code paths */
 void gen_tuning(vf_rng *r, int small);
 void tuning_str(char *buf, size_t n);
